@@ -2,10 +2,12 @@
 
 Abstract view: t_eval (list of step-end times, symbolic length) and y_interpolants (list of pieces, each with its interval
 [t0, t1] and an identity), the cached array __t_eval_arr with its stale flag.
-DO_Inv (forward runs):  equal lengths; t_eval strictly increasing; piece i ends at t_eval[i]; piece i >= 1 starts at t_eval[i-1];
-                        piece 0 starts before t_eval[0].
-DO_Inv_b (backward runs, pieces inserted at the front): t_eval strictly increasing; piece i ends (lower end) at t_eval[i];
-                        piece i < n-1 starts at t_eval[i+1]; the last piece starts above t_eval[n-1].
+DO_Inv (forward runs):  equal lengths; t_eval strictly increasing; piece i spans [t0_i, t_eval[i]] with t0_i < t_eval[i]; piece i >= 1
+                        starts at or after t_eval[i-1] (pieces do not overlap; with dense output kept they are adjacent -- that is
+                        proved of integrate() in props/integrate_core.py -- without it the step rolled back at a terminal event
+                        leaves a gap); the orientation flag __t_decreasing is False.
+DO_Inv_b (backward runs, pieces inserted at the front): t_eval strictly increasing; piece i spans [t_eval[i], t0_i] (it ends at its
+                        lower end); piece i < n-1 starts at or below t_eval[i+1]; __t_decreasing is True once two pieces exist.
 CacheInv: the cached array is stale or equals the list.
 """
 import z3
@@ -21,10 +23,12 @@ N = "len(self.t_eval)"
 COMMON = [N + " == len(self.y_interpolants)",
           "forall(lambda i, j: implies(0 <= i and i < j and j < " + N + ", self.t_eval[i] < self.t_eval[j]))",
           "forall(lambda i: implies(0 <= i and i < " + N + ", self.y_interpolants[i].t1 == self.t_eval[i]))"]
-DO_INV = COMMON + ["forall(lambda i: implies(1 <= i and i < " + N + ", self.y_interpolants[i].t0 == self.t_eval[i - 1]))",
-                   "implies(" + N + " >= 1, self.y_interpolants[0].t0 < self.t_eval[0])"]
-DO_INV_B = COMMON + ["forall(lambda i: implies(0 <= i and i < " + N + " - 1, self.y_interpolants[i].t0 == self.t_eval[i + 1]))",
-                     "implies(" + N + " >= 1, self.y_interpolants[" + N + " - 1].t0 > self.t_eval[" + N + " - 1])"]
+DO_INV = COMMON + ["forall(lambda i: implies(1 <= i and i < " + N + ", self.y_interpolants[i].t0 >= self.t_eval[i - 1]))",
+                   "forall(lambda i: implies(0 <= i and i < " + N + ", self.y_interpolants[i].t0 < self.t_eval[i]))",
+                   "self._DenseOutput__t_decreasing == False"]
+DO_INV_B = COMMON + ["forall(lambda i: implies(0 <= i and i < " + N + " - 1, self.y_interpolants[i].t0 <= self.t_eval[i + 1]))",
+                     "forall(lambda i: implies(0 <= i and i < " + N + ", self.y_interpolants[i].t0 > self.t_eval[i]))",
+                     "implies(" + N + " >= 2, self._DenseOutput__t_decreasing)"]
 CACHE_INV = ["self.__t_eval_arr_stale or (len(self.__t_eval_arr) == " + N + " and forall(lambda i: implies(0 <= i and i < " + N + ", self.__t_eval_arr[i] == self.t_eval[i])))"]
 
 
@@ -33,6 +37,7 @@ def new_dense(st, prefix="sol", stale=None):
     yi = B.new_symlist(st, "piece", prefix + "_yi")
     cache = SeqVal.fresh(prefix + "_cache")
     ref = st.new_obj("DenseOutput", fields={"t_eval": te, "y_interpolants": yi, "_DenseOutput__t_eval_arr": cache,
+                                           "_DenseOutput__t_decreasing": z3.Bool(fresh_name(prefix + "_decreasing")),
                                            "_DenseOutput__t_eval_arr_stale": z3.Bool(fresh_name(prefix + "_stale")) if stale is None else stale})
     st.assume(st.obj(te).fields["len"] >= 0)
     st.assume(st.obj(yi).fields["len"] >= 0)
@@ -66,8 +71,7 @@ def assume_all(ex, st, ctx, clauses, extra=None):
 
 
 def prove_all(ex, st, ctx, clauses, kind, label, extra=None):
-    for i, c in enumerate(clauses):
-        ex.prove(st, ctx, ex.eval_spec(c, st, ctx, extra=extra), kind, "%s#%d" % (label, i))
+    ex.prove_many(st, ctx, [(ex.eval_spec(c, st, ctx, extra=extra), kind, "%s#%d" % (label, i), None) for i, c in enumerate(clauses)])
 
 
 def method_ctx(src, name, tag=None):
@@ -77,23 +81,26 @@ def method_ctx(src, name, tag=None):
 
 def check_add_interpolant(reg, src, prop):
     out = []
-    # ---- first piece: empty dense output (fresh object: t_eval is None)
-    ex = Executor(src, reg, prop=prop)
-    install(ex)
-    fi, ctx = method_ctx(src, "add_interpolant", "DenseOutput.add_interpolant[first]")
-    st = State()
-    yl = st.new_obj("list", "list", items=[])
-    ref = st.new_obj("DenseOutput", fields={"t_eval": None, "y_interpolants": yl, "_DenseOutput__t_eval_arr": None, "_DenseOutput__t_eval_arr_stale": False})
-    piece = new_piece(st)
-    t = st.obj(piece).fields["t1"]
-    for k, (s, v) in enumerate(ex.call_function(fi, [ref, t, piece], {}, st, ctx)):
-        o = s.obj(ref).fields
-        ok = (not isinstance(v, Raised)) and isinstance(o["t_eval"], Ref) and s.obj(o["t_eval"]).items == [t] and s.obj(o["y_interpolants"]).items == [piece] \
-            and o["_DenseOutput__t_eval_arr_stale"] is True
-        reg.ground("%s/%s/single-piece-recorded#%d" % (prop, ctx.tag, k), "post", "DenseOutput.add_interpolant", ok, backend="symbolic-exec",
-                   detail="t_eval == [t], y_interpolants == [piece], cache marked stale")
-    out.append(fi)
-    # ---- forward and backward adjacency
+    # ---- first piece: empty dense output (fresh object: t_eval is None; or emptied by remove_interpolant: empty lists)
+    for variant in ("first", "first-after-emptying"):
+        ex = Executor(src, reg, prop=prop)
+        install(ex)
+        fi, ctx = method_ctx(src, "add_interpolant", "DenseOutput.add_interpolant[%s]" % variant)
+        st = State()
+        yl = st.new_obj("list", "list", items=[])
+        tl = None if variant == "first" else st.new_obj("list", "list", items=[])
+        ref = st.new_obj("DenseOutput", fields={"t_eval": tl, "y_interpolants": yl, "_DenseOutput__t_eval_arr": None, "_DenseOutput__t_eval_arr_stale": False,
+                                               "_DenseOutput__t_decreasing": False})
+        piece = new_piece(st)
+        t = st.obj(piece).fields["t1"]
+        for k, (s, v) in enumerate(ex.call_function(fi, [ref, t, piece], {}, st, ctx)):
+            o = s.obj(ref).fields
+            ok = (not isinstance(v, Raised)) and isinstance(o["t_eval"], Ref) and s.obj(o["t_eval"]).items == [t] and s.obj(o["y_interpolants"]).items == [piece] \
+                and o["_DenseOutput__t_eval_arr_stale"] is True and o["_DenseOutput__t_decreasing"] is False
+            reg.ground("%s/%s/single-piece-recorded#%d" % (prop, ctx.tag, k), "post", "DenseOutput.add_interpolant", ok, backend="symbolic-exec",
+                       detail="t_eval == [t], y_interpolants == [piece], cache marked stale, orientation flag untouched")
+        out.append(fi)
+    # ---- forward and backward
     for direction, inv in (("forward", DO_INV), ("backward", DO_INV_B)):
         ex = Executor(src, reg, prop=prop)
         install(ex)
@@ -108,12 +115,11 @@ def check_add_interpolant(reg, src, prop):
         st.assume(st.obj(st.obj(ref).fields["t_eval"]).fields["len"] >= 1)
         env = {"self": ref, "y_interp": piece, "t": t}
         if direction == "forward":
-            assume_all(ex, st, ctx, ["y_interp.t0 == self.t_eval[" + N + " - 1]", "y_interp.t1 == t", "t > y_interp.t0"], extra=env)
+            assume_all(ex, st, ctx, ["y_interp.t0 >= self.t_eval[" + N + " - 1]", "y_interp.t1 == t", "t > y_interp.t0"], extra=env)
         else:
-            assume_all(ex, st, ctx, ["y_interp.t0 == self.t_eval[0]", "y_interp.t1 == t", "t < y_interp.t0"], extra=env)
+            assume_all(ex, st, ctx, ["y_interp.t0 <= self.t_eval[0]", "y_interp.t1 == t", "t < y_interp.t0"], extra=env)
         reg.cover("%s/%s/cover#requires" % (prop, ctx.tag), ctx.tag, ex.global_axioms + st.pc)
         n0 = st.obj(st.obj(ref).fields["t_eval"]).fields["len"]
-        entry = st.fork()
         for k, (s, v) in enumerate(ex.call_function(fi, [ref, t, piece], {}, st, ctx)):
             if isinstance(v, Raised):
                 reg.ground("%s/%s/no-exception#%d" % (prop, ctx.tag, k), "post-exc", "DenseOutput.add_interpolant", False, detail=repr(v.exc))
@@ -125,31 +131,49 @@ def check_add_interpolant(reg, src, prop):
             where = (N + " - 1") if direction == "forward" else "0"
             ex.prove(s, ctx, ex.eval_spec("self.t_eval[%s] == t and self.y_interpolants[%s].id == y_interp.id" % (where, where), s, ctx, extra=env), "post",
                      "new-piece-keyed-by-its-end-time.path%d" % k)
+            if direction == "backward":
+                ex.prove(s, ctx, ex.eval_spec("self._DenseOutput__t_decreasing", s, ctx, extra=env), "post", "orientation-flag-set.path%d" % k)
         out.append(fi)
     return out
 
 
 def check_remove_interpolant(reg, src, prop):
-    ex = Executor(src, reg, prop=prop)
-    install(ex)
-    fi, ctx = method_ctx(src, "remove_interpolant", "DenseOutput.remove_interpolant[oldest,forward]")
-    st = State()
-    ref = new_dense(st)
-    st.env = {"self": ref}
-    assume_all(ex, st, ctx, DO_INV + CACHE_INV)
-    n0 = st.obj(st.obj(ref).fields["t_eval"]).fields["len"]
-    st.assume(n0 >= 2)
-    last_before = ex.eval_spec("self.t_eval[" + N + " - 1]", st, ctx)
-    for k, (s, v) in enumerate(ex.call_function(fi, [ref, 0], {}, st, ctx)):
-        s.env = {"self": ref}
-        prove_all(ex, s, ctx, DO_INV + CACHE_INV, "post", "invariant-preserved.path%d" % k)
-        ex.prove(s, ctx, z3.And(s.obj(s.obj(ref).fields["t_eval"]).fields["len"] == n0 - 1, ex.eval_spec("self.t_eval[" + N + " - 1]", s, ctx) == last_before),
-                 "post", "oldest-piece-removed-newest-kept.path%d" % k)
+    """remove_interpolant(0) / (-1): which piece goes in which direction of the run; the invariants survive (also when the last piece goes)."""
+    fi = None
+    for direction, inv, idx, which in (("forward", DO_INV, 0, "oldest"), ("forward", DO_INV, -1, "newest"), ("backward", DO_INV_B, -1, "oldest"), ("backward", DO_INV_B, 0, "newest")):
+        ex = Executor(src, reg, prop=prop)
+        install(ex)
+        fi, ctx = method_ctx(src, "remove_interpolant", "DenseOutput.remove_interpolant[%s,%s]" % (which, direction))
+        st = State()
+        ref = new_dense(st)
+        st.env = {"self": ref}
+        assume_all(ex, st, ctx, inv + CACHE_INV)
+        n0 = st.obj(st.obj(ref).fields["t_eval"]).fields["len"]
+        st.assume(n0 >= 1)
+        reg.cover("%s/%s/cover#requires" % (prop, ctx.tag), ctx.tag, ex.global_axioms + st.pc)
+        newest = (N + " - 1") if direction == "forward" else "0"
+        oldest = "0" if direction == "forward" else (N + " - 1")
+        keep = newest if which == "oldest" else oldest
+        kept_before = ex.eval_spec("self.y_interpolants[%s].id" % keep, st, ctx.child_spec())
+        gone = ex.eval_spec("self.y_interpolants[%s].id" % (oldest if which == "oldest" else newest), st, ctx.child_spec())
+        for k, (s, v) in enumerate(ex.call_function(fi, [ref, idx], {}, st, ctx)):
+            if isinstance(v, Raised):
+                reg.ground("%s/%s/no-exception#%d" % (prop, ctx.tag, k), "post-exc", "DenseOutput.remove_interpolant", False, detail=repr(v.exc))
+                continue
+            s.env = {"self": ref}
+            prove_all(ex, s, ctx, inv + CACHE_INV, "post", "invariant-preserved.path%d" % k)
+            n1 = s.obj(s.obj(ref).fields["t_eval"]).fields["len"]
+            ex.prove(s, ctx, z3.And(n1 == n0 - 1, z3.Implies(n0 >= 2, ex.eval_spec("self.y_interpolants[%s].id" % keep, s, ctx.child_spec()) == kept_before)),
+                     "post", "%s-piece-removed-the-other-end-kept.path%d" % (which, k))
+            removed = s.obj(v[1]).fields["id"] if isinstance(v, tuple) and isinstance(v[1], Ref) else None
+            reg.ground("%s/%s/returns-the-removed-piece#%d" % (prop, ctx.tag, k), "post", "DenseOutput.remove_interpolant", removed is not None, backend="symbolic-exec")
+            if removed is not None:
+                ex.prove(s, ctx, removed == gone, "post", "removed-piece-is-the-%s.path%d" % (which, k))
     return fi
 
 
 def check_lookup(reg, src, prop, direction="forward"):
-    """find_interval / __call__ (scalar) / find_interval_vec (lifted): the piece returned contains the query."""
+    """find_interval / __call__ (scalar) / find_interval_vec (lifted): a query inside some piece is answered by a piece that contains it."""
     inv = DO_INV if direction == "forward" else DO_INV_B
     out = []
     for which in ("__call__", "grad", "find_interval_vec"):
@@ -165,10 +189,9 @@ def check_lookup(reg, src, prop, direction="forward"):
         n = st.obj(st.obj(ref).fields["t_eval"]).fields["len"]
         st.assume(n >= 1)
         q = z3.Real("query")
-        # query inside the covered range
-        lo = ex.eval_spec("self.y_interpolants[0].t0" if direction == "forward" else "self.t_eval[0]", st, ctx)
-        hi = ex.eval_spec("self.t_eval[" + N + " - 1]" if direction == "forward" else "self.y_interpolants[" + N + " - 1].t0", st, ctx)
-        st.assume(z3.And(q >= lo, q <= hi))
+        # query inside one of the pieces
+        r0 = z3.Int("piece_of_query")
+        st.assume(to_bool(ex.eval_spec("0 <= r0 and r0 < " + N + " and between(q, self.y_interpolants[r0].t0, self.y_interpolants[r0].t1)", st, ctx.child_spec(), extra={"r0": r0, "q": q})))
         reg.cover("%s/%s/cover#requires" % (prop, ctx.tag), ctx.tag, ex.global_axioms + st.pc)
         for k, (s, v) in enumerate(ex.call_function(fi, [ref, q], {}, st, ctx)):
             if isinstance(v, Raised):
